@@ -12,7 +12,7 @@ C11 - The consistency check reports exactly the violations present.
 import ast
 import itertools
 
-from ..src import AnalysisError, loc, src, dotted, call_attr, param_names, walk_local, body_without_doc
+from ..src import qualname, AnalysisError, loc, src, dotted, call_attr, param_names, walk_local, body_without_doc
 from .. import pm, absint
 from .common import is_case_normalised, exception_class_name
 
@@ -25,6 +25,7 @@ def run(ctx):
     ctx.guard(consistent, ctx)
     ctx.guard(uniq, ctx)
     ctx.guard(subtype, ctx)
+    ctx.guard(accumulate, ctx)
     ctx.assume('Link.navigate returns the partner set of the instance (C02-LINKOPS)')
     return ('Finite truth tables obtained by abstract execution of the source of check_link_integrity, '
             'check_association_integrity, check_subtype_integrity, MetaModel.is_consistent, the null predicate of '
@@ -520,6 +521,27 @@ def uniq(ctx):
     rets = [n for n in ast.walk(fn) if isinstance(n, ast.Return)]
     r.check(len(rets) == 1 and pm.match(counter, rets[0].value) is not None, 'the accumulated count is returned', fn,
             construct=QQ, key='return', msg='check_uniqueness_constraint does not return its counter')
+
+
+def accumulate(ctx):
+    '''the sets the checks read (identifying / referential attributes, indices) are only ever extended after construction'''
+    repo = ctx.repo
+    r = ctx.rule('C11-ACCUM', 'identifying / referential attribute sets and identifier tables are only extended, never replaced', floor=3,
+                 oracle='check_uniqueness_constraint tests every attribute of every identifier of the class')
+    for modname in ('xtuml.meta', 'xtuml.load', 'bridgepoint.ooaofooa'):
+        for fn_ in [n for n in ast.walk(repo.module(modname).tree) if isinstance(n, ast.FunctionDef)]:
+            for n in ast.walk(fn_):
+                if isinstance(n, (ast.Assign, ast.AugAssign)):
+                    tg = n.targets if isinstance(n, ast.Assign) else [n.target]
+                    for t in tg:
+                        if isinstance(t, ast.Attribute) and t.attr in ('identifying_attributes', 'referential_attributes', 'indices'):
+                            q = qualname(n)
+                            ctor = fn_.name == '__init__' and src(t.value) == 'self'
+                            grows = isinstance(n, ast.AugAssign) and isinstance(n.op, ast.BitOr)
+                            r.check(ctor or grows, '%s: %s is %s' % (q, src(t), 'created empty' if ctor else 'extended'), n, construct=q,
+                                    key='replace ' + t.attr,
+                                    msg='%s replaces %s (`%s`): what earlier definitions (other identifiers / associations of the class) put there is '
+                                        'lost, so the consistency check no longer looks at those attributes' % (q, src(t), src(n)[:70]))
 
 
 def subtype(ctx):
